@@ -28,7 +28,8 @@ CHECKS = {
         text="every rule's left-hand side is instantiated with operands from {variable, same variable, other variable, "
              "12 boundary constants}, pairs/chains for context rules, under each criterion with rules on and off; the "
              "produced specification is evaluated on every state of the boundary domain and compared with the EVM run "
-             "of the block; constants in specifications must be 256-bit words; evidence lists which rules fired",
+             "of the block; constants in specifications must be 256-bit words; an instruction flagged commutative is "
+             "evaluated with both operand orders; evidence lists which rules fired",
         note="trusted base: mc/spec_eval.py + mc/evm_ref.py; the size-gating clause (min bytes) is covered by C08's "
              "byte accounting rather than by a separate search",
         technique="bounded-exhaustive instantiation of rewrite-rule left-hand sides x boundary operand values against "
@@ -45,7 +46,8 @@ CHECKS = {
         level="exploration", engine="E1+E2", ref="DESIGN.md section 4 C05",
         text="for every enumerated block, ALL single-point semantic mutations are generated; each pair the reference "
              "EVM distinguishes on some state of the domain is submitted to compare_asm_block_asm_format, which must "
-             "not answer equal; compare(B,B) must answer equal without raising",
+             "not answer equal; the same for single-point mutations of the sequence the tool itself proposes for the "
+             "block (pairs near the candidate); compare(B,B) must answer equal without raising",
         note="trusted base: mc/evm_ref.py; the external-checker adapter is checked by comparing forves_format with an "
              "independent rendering for every block of a prefix tree with splitting instructions and pseudo pushes, and "
              "by running the real bin/forves-checker on a slice of distinguishable pairs",
@@ -68,7 +70,8 @@ CHECKS = {
              "instructions) and of filler blocks of length 18..27 with stores/splits at every subset of <=3 positions, "
              "under the three policies: join of the reported sub-blocks = optimizable sequence, get_subblocks agrees, "
              "every specification key/recorded instruction list/stack sizes match its sub-block, rebuild with {} and "
-             "all-None is the identity on all fields, and replacing sub-block k changes exactly segment k",
+             "all-None is the identity on all fields, and replacing sub-block k changes exactly segment k; plus every "
+             "splitting instruction met at every stack height 0..17 (thorough ..39 and 98..102)",
         note="expected layouts are computed by an independent segmentation (mc/spec_eval.segments) and an independent "
              "rendering of the plain text form; known finding: ASSIGNIMMUTABLE operand missing in the sub-block list",
         technique="bounded-exhaustive enumeration of programs x split policies against an independent partition "
@@ -99,7 +102,8 @@ CHECKS = {
         text="(A) every block of a zero-producing family (pushed, folded, rule results, prefix tree containing PUSH 0) "
              "x PUSH0 on/off x three criteria through optimize+compare: no PUSH0 emitted while disabled, a single "
              "PUSH0 spelling while enabled, and the sizes/gas reported for input and output sub-blocks equal "
-             "independent figures under the same spelling rule; (B) 2-3 contract documents x every -c selection "
+             "independent figures under the same spelling rule, on the JSON route and (PUSH0 disabled) on the -bl text "
+             "route with the two-digit spelling of zero; (B) 2-3 contract documents x every -c selection "
              "against the single-contract run, statistics/log restricted to the selection, unknown name is an error",
         note="gas recomputation is restricted to sub-blocks without access-priced instructions; trusted base "
              "mc/asm_ref.py",
@@ -143,6 +147,8 @@ CHECKS = {
              "1 (quick) / 2 (thorough) with every history replayed in a freshly forked process, plus one de Bruijn walk "
              "per option set in which every word of length 2 (quick) / 3 (thorough) over the probes occurs as "
              "consecutive transitions; invariant on every transition: result == result in a fresh process; plus "
+             "cross-history agreement over a victim pool, saturation histories (one block per opcode, round robin, "
+             "13/41 rounds in one process) and "
              "position independence of a block inside a contract",
         note="result = specifications, sub-block list, emitted items, log entry, statistics without timings; "
              "global_params.paths (private scratch location) is excluded from the state; sound deduplication because "
